@@ -1137,6 +1137,31 @@ pub fn sweep_v3(thorough: bool) -> Vec<v3::Packet> {
             out.push(Packet::Unsubscribe(Unsubscribe { pid: Pid::try_from(7).unwrap(), topics: (0..n).map(|_| TopicFilter::try_from("same/+".to_string()).unwrap()).collect() }));
         }
     }
+    // the REMAINING LENGTH on either side of 127/128 and 16,383/16,384 reached through the PAYLOAD (short topic),
+    // for every QoS (the variable header differs by the 2 pid bytes)
+    for boundary in [128usize, 16_384] {
+        for rl in boundary - 6..=boundary + 4 {
+            for qos_pid in [QosPid::Level0, QosPid::Level1(Pid::try_from(10).unwrap()), QosPid::Level2(Pid::try_from(11).unwrap())] {
+                let vh = 2 + 3 + if qos_pid == QosPid::Level0 { 0 } else { 2 };
+                if rl >= vh {
+                    out.push(Packet::Publish(Publish { dup: false, retain: false, qos_pid, topic_name: TopicName::try_from("a/b".to_string()).unwrap(), payload: Bytes::from(vec![0x5a; rl - vh]) }));
+                }
+            }
+        }
+    }
+    // SPARE CAPACITY (see sweep_v5)
+    {
+        let roomy = |t: &str| -> String {
+            let mut r = String::with_capacity(70_000 + t.len());
+            r.push_str(t);
+            r
+        };
+        let mut pl = Vec::with_capacity(100_000);
+        pl.extend_from_slice(b"payload");
+        out.push(Packet::Publish(Publish { dup: false, retain: false, qos_pid: QosPid::Level0, topic_name: TopicName::try_from(roomy("a/b")).unwrap(), payload: Bytes::from(pl) }));
+        out.push(Packet::Subscribe(Subscribe { pid: Pid::try_from(3).unwrap(), topics: vec![(TopicFilter::try_from(roomy("$share/g/a/+")).unwrap(), QoS::Level1), (TopicFilter::try_from(roomy("a/#")).unwrap(), QoS::Level0)] }));
+        out.push(Packet::Connect(Connect { protocol: Protocol::V311, clean_session: true, keep_alive: 1, client_id: Arc::new(roomy("client")), last_will: None, username: Some(Arc::new(roomy("user"))), password: None }));
+    }
     // COLLISION pairs (see `collisions`) next to each other wherever two texts meet
     for (a, b) in collisions() {
         let f = |s: &String| TopicFilter::try_from(s.clone()).unwrap();
@@ -1313,6 +1338,50 @@ pub fn sweep_v5(thorough: bool) -> Vec<v5::Packet> {
             out.push(Packet::Subscribe(Subscribe { pid: Pid::try_from(6).unwrap(), properties: Default::default(), topics: (0..n).map(|i| (TopicFilter::try_from(format!("a/{}", i % 7)).unwrap(), SubscriptionOptions::new(QoS::Level2))).collect() }));
             out.push(Packet::Unsubscribe(Unsubscribe { pid: Pid::try_from(7).unwrap(), properties: Default::default(), topics: (0..n).map(|_| TopicFilter::try_from("same/+".to_string()).unwrap()).collect() }));
         }
+    }
+    // the REMAINING LENGTH on either side of 127/128 and 16,383/16,384 reached through the PAYLOAD (see sweep_v3)
+    for boundary in [128usize, 16_384] {
+        for rl in boundary - 6..=boundary + 4 {
+            for qos_pid in [QosPid::Level0, QosPid::Level1(Pid::try_from(10).unwrap()), QosPid::Level2(Pid::try_from(11).unwrap())] {
+                let vh = 2 + 3 + 1 + if qos_pid == QosPid::Level0 { 0 } else { 2 };
+                if rl >= vh {
+                    out.push(Packet::Publish(Publish { dup: false, retain: false, qos_pid, topic_name: TopicName::try_from("a/b".to_string()).unwrap(), payload: Bytes::from(vec![0x5a; rl - vh]), properties: Default::default() }));
+                }
+            }
+        }
+    }
+    // several LARGE parts at once: payload × property section × topic (a head assembled in a fixed buffer, a
+    // threshold on one part that forgets another)
+    for pl in [1_024usize, 32_767, 32_768, 40_000] {
+        for props in [0usize, 100, 900, 1_100, 5_000] {
+            for tl in [1usize, 1_014, 1_015, 3_000] {
+                if (props == 0 && tl == 1) || (tl == 3_000 && props == 100) {
+                    continue;
+                }
+                let mut ups = Vec::new();
+                let mut left = props;
+                while left >= 5 {
+                    let take = left.min(5 + 600);
+                    ups.push(UserProperty { name: Arc::new("k".repeat((take - 5) / 2)), value: Arc::new("v".repeat(take - 5 - (take - 5) / 2)) });
+                    left -= take;
+                }
+                out.push(Packet::Publish(Publish { dup: false, retain: true, qos_pid: QosPid::Level1(Pid::try_from(12).unwrap()), topic_name: name(tl), payload: Bytes::from(vec![0x5a; pl]), properties: PublishProperties { user_properties: ups, ..Default::default() } }));
+            }
+        }
+    }
+    // SPARE CAPACITY: the same values in allocations much larger than their contents (a String grown by pushes, a
+    // Vec pre-allocated for the largest message): nothing may depend on capacity()
+    {
+        let roomy = |t: &str| -> String {
+            let mut r = String::with_capacity(70_000 + t.len());
+            r.push_str(t);
+            r
+        };
+        let mut pl = Vec::with_capacity(100_000);
+        pl.extend_from_slice(b"payload");
+        out.push(Packet::Publish(Publish { dup: false, retain: false, qos_pid: QosPid::Level0, topic_name: TopicName::try_from(roomy("a/b")).unwrap(), payload: Bytes::from(pl), properties: PublishProperties { content_type: Some(Arc::new(roomy("text/plain"))), user_properties: vec![UserProperty { name: Arc::new(roomy("k")), value: Arc::new(roomy("v")) }], ..Default::default() } }));
+        out.push(Packet::Subscribe(Subscribe { pid: Pid::try_from(3).unwrap(), properties: Default::default(), topics: vec![(TopicFilter::try_from(roomy("$share/g/a/+")).unwrap(), SubscriptionOptions::new(QoS::Level1)), (TopicFilter::try_from(roomy("a/#")).unwrap(), SubscriptionOptions::new(QoS::Level0))] }));
+        out.push(Packet::Connect(Connect { protocol: Protocol::V500, clean_start: true, keep_alive: 1, properties: Default::default(), client_id: Arc::new(roomy("client")), last_will: None, username: Some(Arc::new(roomy("user"))), password: None }));
     }
     // COLLISION pairs (see `collisions`) next to each other wherever two texts meet
     for (a, b) in collisions() {
